@@ -19,7 +19,7 @@ use grin_core::core::hash::{Hash, Hashed};
 use grin_core::core::id::ShortIdentifiable;
 use grin_core::core::transaction::{self, Weighting};
 use grin_core::core::{
-	Block, BlockHeader, CompactBlock, Input, Inputs, KernelFeatures, Output,
+	Block, BlockHeader, CommitWrapper, CompactBlock, Input, Inputs, KernelFeatures, Output,
 	Transaction, TxKernel,
 };
 use grin_core::global;
@@ -28,6 +28,7 @@ use grin_core::pow::Difficulty;
 use grin_core::ser::{self, DeserializationMode, ProtocolVersion};
 use grin_keychain::{BlindSum, BlindingFactor, Identifier, Keychain};
 use grin_util::secp::key::SecretKey;
+use grin_util::secp::pedersen::Commitment;
 use serde_json::{json, Value};
 use std::collections::{BTreeMap, HashMap, HashSet};
 use std::time::{Duration, Instant};
@@ -749,6 +750,29 @@ fn reference(txs: &[&Transaction]) -> (Facts, usize) {
 	)
 }
 
+/// The transaction the definition of aggregation describes, assembled without
+/// `aggregate` (used only to show that a refused aggregate exists and is valid).
+fn hand_aggregate(txs: &[&Transaction]) -> Transaction {
+	let mut ins: Vec<C33> = vec![];
+	let mut outs: Vec<Output> = vec![];
+	let mut kernels: Vec<TxKernel> = vec![];
+	for t in txs {
+		ins.extend(input_commits(t));
+		outs.extend_from_slice(t.outputs());
+		kernels.extend_from_slice(t.kernels());
+	}
+	let out_set: HashSet<C33> = outs.iter().map(|o| o.commitment().0).collect();
+	let in_set: HashSet<C33> = ins.iter().cloned().collect();
+	let ins: Vec<CommitWrapper> = ins
+		.iter()
+		.filter(|c| !out_set.contains(*c))
+		.map(|c| CommitWrapper::from(Commitment(*c)))
+		.collect();
+	let outs: Vec<Output> = outs.into_iter().filter(|o| !in_set.contains(&o.commitment().0)).collect();
+	let offset = sum_offsets(txs.iter().map(|t| &t.offset));
+	Transaction::new(Inputs::CommitOnly(ins), &outs, &kernels).with_offset(BlindingFactor::from_slice(&offset))
+}
+
 fn weighting_for(tx: &Transaction) -> (Weighting, &'static str) {
 	// 1 per input, 21 per output, 3 per kernel (consensus weights)
 	let w = tx.inputs().len() as u64 + 21 * tx.outputs().len() as u64 + 3 * tx.kernels().len() as u64;
@@ -883,6 +907,45 @@ fn gen_plan(pool: &Pool, p: &mut Prng) -> Plan {
 	Plan { groups, strategy }
 }
 
+/// A failed `transaction::aggregate` call together with its operands.
+struct AggErr {
+	err: String,
+	operands: Vec<Transaction>,
+}
+
+fn try_aggregate(txs: &[Transaction]) -> Result<Transaction, AggErr> {
+	transaction::aggregate(txs).map_err(|e| AggErr {
+		err: format!("{:?}", e),
+		operands: txs.to_vec(),
+	})
+}
+
+/// Every refused aggregation of valid, distinct, non-conflicting transactions is the same refutation,
+/// wherever it happens (operand, permutation, grouping, subset): one signature per (error, offset class).
+fn report_agg_err(acc: &mut Acc, e: &AggErr, offc: &str, stage: &str, replay: Value) {
+	acc.count("aggregate_errors", 1);
+	let refs: Vec<&Transaction> = e.operands.iter().collect();
+	let by_hand = hand_aggregate(&refs);
+	let (w, _) = weighting_for(&by_hand);
+	let hand_ok = by_hand.validate(w);
+	let zero_sum = sum_offsets(refs.iter().map(|t| &t.offset)) == [0u8; 32];
+	let any_nonzero = refs.iter().any(|t| !t.offset.is_zero());
+	acc.violation(
+		format!("oracle=aggregate_ok;event=Err({});off={}", e.err, offc),
+		format!(
+			"aggregate of {} valid transactions failed with {} (stage {}); their offsets {}sum to 0 mod n{}; the aggregate \
+			 assembled by hand (union of kernels, inputs/outputs minus matched pairs, summed offset) validates: {:?}",
+			e.operands.len(),
+			e.err,
+			stage,
+			if zero_sum { "" } else { "do not " },
+			if any_nonzero { " (not all of them are zero)" } else { "" },
+			hand_ok
+		),
+		replay,
+	);
+}
+
 fn all_perms(n: usize) -> Vec<Vec<usize>> {
 	fn rec(cur: &mut Vec<usize>, used: &mut Vec<bool>, n: usize, out: &mut Vec<Vec<usize>>) {
 		if cur.len() == n {
@@ -906,12 +969,7 @@ fn all_perms(n: usize) -> Vec<Vec<usize>> {
 
 /// Random binary grouping: aggregate([nest(left), nest(right)]). The shape is
 /// appended to `desc` in bracket notation.
-fn nest(
-	ops: &[Transaction],
-	idx: &[usize],
-	p: &mut Prng,
-	desc: &mut String,
-) -> Result<Transaction, String> {
+fn nest(ops: &[Transaction], idx: &[usize], p: &mut Prng, desc: &mut String) -> Result<Transaction, AggErr> {
 	if idx.len() == 1 {
 		desc.push_str(&idx[0].to_string());
 		return Ok(ops[idx[0]].clone());
@@ -922,7 +980,7 @@ fn nest(
 	desc.push(' ');
 	let r = nest(ops, &idx[k..], p, desc)?;
 	desc.push(')');
-	transaction::aggregate(&[l, r]).map_err(|e| format!("{:?}", e))
+	try_aggregate(&[l, r])
 }
 
 fn random_partition(n: usize, p: &mut Prng) -> Vec<Vec<usize>> {
@@ -937,11 +995,11 @@ fn random_partition(n: usize, p: &mut Prng) -> Vec<Vec<usize>> {
 	groups
 }
 
-fn aggregate_partition(ops: &[Transaction], part: &[Vec<usize>]) -> Result<Vec<Transaction>, String> {
+fn aggregate_partition(ops: &[Transaction], part: &[Vec<usize>]) -> Result<Vec<Transaction>, AggErr> {
 	let mut out = vec![];
 	for g in part {
 		let txs: Vec<Transaction> = g.iter().map(|i| ops[*i].clone()).collect();
-		out.push(transaction::aggregate(&txs).map_err(|e| format!("{:?}", e))?);
+		out.push(try_aggregate(&txs)?);
 	}
 	Ok(out)
 }
@@ -1011,7 +1069,7 @@ fn run_case(cx: &mut CaseCtx, p: &mut Prng, acc: &mut Acc) {
 			ops.push(cx.pool.base[g[0]].tx.clone());
 		} else {
 			let txs: Vec<Transaction> = g.iter().map(|i| cx.pool.base[*i].tx.clone()).collect();
-			match transaction::aggregate(&txs) {
+			match try_aggregate(&txs) {
 				Ok(t) => {
 					let (w, _) = weighting_for(&t);
 					if let Err(e) = t.validate(w) {
@@ -1026,12 +1084,7 @@ fn run_case(cx: &mut CaseCtx, p: &mut Prng, acc: &mut Acc) {
 					ops.push(t);
 				}
 				Err(e) => {
-					acc.count("aggregate_errors", 1);
-					acc.violation(
-						format!("oracle=aggregate_ok;event=Err({:?});off={}", e, offc),
-						format!("aggregate of valid transactions {:?} failed: {:?}", g, e),
-						replay(json!({"group": g, "stage": "operand"})),
-					);
+					report_agg_err(acc, &e, offc, "pre-aggregated operand", replay(json!({"group": g, "stage": "operand"})));
 					return;
 				}
 			}
@@ -1170,18 +1223,10 @@ fn run_case(cx: &mut CaseCtx, p: &mut Prng, acc: &mut Acc) {
 	acc.count(&format!("time_us_{}", __stage), __t.elapsed().as_micros() as u64);
 	let (__stage, __t) = ("aggregate", Instant::now());
 	// ---- (0) aggregate
-	let agg = match transaction::aggregate(&ops) {
+	let agg = match try_aggregate(&ops) {
 		Ok(t) => t,
 		Err(e) => {
-			acc.count("aggregate_errors", 1);
-			acc.violation(
-				format!("oracle=aggregate_ok;event=Err({:?});off={}", e, offc),
-				format!(
-					"aggregate of {} valid transactions failed with {:?} (offset class {}, shape {})",
-					n_ops, e, offc, shape
-				),
-				replay(json!({"stage": "aggregate"})),
-			);
+			report_agg_err(acc, &e, offc, "aggregate of the operands", replay(json!({"stage": "aggregate", "shape": shape})));
 			return;
 		}
 	};
@@ -1292,7 +1337,7 @@ fn run_case(cx: &mut CaseCtx, p: &mut Prng, acc: &mut Acc) {
 		for perm in &perms {
 			let txs: Vec<Transaction> = perm.iter().map(|i| ops[*i].clone()).collect();
 			n_perm += 1;
-			match transaction::aggregate(&txs) {
+			match try_aggregate(&txs) {
 				Ok(t) => {
 					if bytes_of(&t) != agg_bytes || t.hash() != agg_hash || t != agg {
 						acc.violation(
@@ -1304,12 +1349,7 @@ fn run_case(cx: &mut CaseCtx, p: &mut Prng, acc: &mut Acc) {
 					}
 				}
 				Err(e) => {
-					acc.count("aggregate_errors", 1);
-					acc.violation(
-						format!("oracle=aggregate_ok;event=Err({:?});off={}", e, offc),
-						format!("aggregate fails for permutation {:?}: {:?}", perm, e),
-						replay(json!({"perm": perm, "stage": "permutation"})),
-					);
+					report_agg_err(acc, &e, offc, "permutation", replay(json!({"perm": perm, "stage": "permutation"})));
 					break;
 				}
 			}
@@ -1332,8 +1372,7 @@ fn run_case(cx: &mut CaseCtx, p: &mut Prng, acc: &mut Acc) {
 			} else {
 				let part = random_partition(n_ops, p);
 				desc = format!("{:?}", part);
-				aggregate_partition(&ops, &part)
-					.and_then(|v| transaction::aggregate(&v).map_err(|e| format!("{:?}", e)))
+				aggregate_partition(&ops, &part).and_then(|v| try_aggregate(&v))
 			};
 			n_grp += 1;
 			match res {
@@ -1348,12 +1387,7 @@ fn run_case(cx: &mut CaseCtx, p: &mut Prng, acc: &mut Acc) {
 					}
 				}
 				Err(e) => {
-					acc.count("aggregate_errors", 1);
-					acc.violation(
-						format!("oracle=aggregate_ok;event=Err({});off={}", e, offc),
-						format!("nested aggregate fails for grouping {}: {}", desc, e),
-						replay(json!({"grouping": desc, "stage": "grouping"})),
-					);
+					report_agg_err(acc, &e, offc, "nested grouping", replay(json!({"grouping": desc, "stage": "grouping"})));
 					break;
 				}
 			}
@@ -1362,7 +1396,7 @@ fn run_case(cx: &mut CaseCtx, p: &mut Prng, acc: &mut Acc) {
 			// flat aggregate of the base transactions
 			let txs: Vec<Transaction> = flat.iter().map(|i| cx.pool.base[*i].tx.clone()).collect();
 			n_grp += 1;
-			match transaction::aggregate(&txs) {
+			match try_aggregate(&txs) {
 				Ok(t) => {
 					if bytes_of(&t) != agg_bytes || t.hash() != agg_hash {
 						acc.violation(
@@ -1372,11 +1406,7 @@ fn run_case(cx: &mut CaseCtx, p: &mut Prng, acc: &mut Acc) {
 						);
 					}
 				}
-				Err(e) => acc.violation(
-					format!("oracle=aggregate_ok;event=Err({:?});off={}", e, offc),
-					format!("flat aggregate of the base transactions fails: {:?}", e),
-					replay(json!({"grouping": "flat", "stage": "grouping"})),
-				),
+				Err(e) => report_agg_err(acc, &e, offc, "flat base transactions", replay(json!({"grouping": "flat", "stage": "grouping"}))),
 			}
 		}
 		acc.count("groupings_checked", n_grp);
@@ -1421,13 +1451,8 @@ fn run_case(cx: &mut CaseCtx, p: &mut Prng, acc: &mut Acc) {
 			acc.count(&format!("deaggregations_remainder_offset_{}", rz), 1);
 			let sub_idx: Vec<usize> = (0..n_ops).filter(|i| member[*i]).collect();
 			// deaggregate aggregates the subset first: a failure there is the aggregate oracle's business
-			if let Err(e) = transaction::aggregate(&subset) {
-				acc.count("aggregate_errors", 1);
-				acc.violation(
-					format!("oracle=aggregate_ok;event=Err({:?});off={}", e, offc),
-					format!("aggregate of the subset {:?} fails: {:?}", sub_idx, e),
-					replay(json!({"subset_operands": sub_idx, "stage": "deaggregate_subset"})),
-				);
+			if let Err(e) = try_aggregate(&subset) {
+				report_agg_err(acc, &e, offc, "subset to de-aggregate", replay(json!({"subset_operands": sub_idx, "stage": "deaggregate_subset"})));
 				continue;
 			}
 			match transaction::deaggregate(agg.clone(), &subset) {
@@ -1462,11 +1487,15 @@ fn run_case(cx: &mut CaseCtx, p: &mut Prng, acc: &mut Acc) {
 				}
 				Err(e) => {
 					acc.count("deaggregate_errors", 1);
+					let by_hand = hand_aggregate(&rest);
+					let (w, _) = weighting_for(&by_hand);
+					let hand_ok = by_hand.validate(w);
 					acc.violation(
 						format!("oracle=deaggregate_ok;event=Err({:?});rem_off={};sub_off={}", e, rz, sz),
 						format!(
-							"deaggregate(agg of {} independent txs, subset {:?}) failed with {:?}; remainder offset is {}, subset offset is {}",
-							n_ops, sub_idx, e, rz, sz
+							"deaggregate(agg of {} operands that do not spend each other's outputs, subset {:?}) failed with {:?}; \
+							 the remaining {} operand(s) have offset sum {}, the subset's is {}; the remainder assembled by hand validates: {:?}",
+							n_ops, sub_idx, e, rest.len(), rz, sz, hand_ok
 						),
 						replay(json!({"subset_operands": sub_idx})),
 					);
@@ -1564,14 +1593,13 @@ fn hydration(
 		let part = random_partition(n_ops, p);
 		match aggregate_partition(ops, &part) {
 			Ok(v) => variants.push(("partially_aggregated", v)),
-			Err(e) => {
-				acc.count("aggregate_errors", 1);
-				acc.violation(
-					format!("oracle=aggregate_ok;event=Err({});off={}", e, offc),
-					format!("aggregate of a partition {:?} fails: {}", part, e),
-					json!({"shard": shard, "round": round, "case": case, "groups": cx.plan.groups, "stage": "hydration_partition"}),
-				);
-			}
+			Err(e) => report_agg_err(
+				acc,
+				&e,
+				offc,
+				"partition for hydration",
+				json!({"shard": shard, "round": round, "case": case, "groups": cx.plan.groups, "partition": part, "stage": "hydration_partition"}),
+			),
 		}
 	}
 	variants.push(("full_aggregate", vec![agg.clone()]));
